@@ -56,6 +56,8 @@ POSITIONS = {
     "mut_param_mutated": ("target", "value"),
     "eq_method_param": ("peer", "value"),
     "main_mut_local": ("tank", "value"),
+    "function_with_mut_param": ("refill", "value"),
+    "function_called_with_named_args_out_of_order": ("span", "value"),
 }
 
 RUST_KEYWORDS = (
@@ -132,6 +134,11 @@ def run(tier):
             for j in range(reps):
                 p, i = vpos[(k * 5 + j * 7) % len(vpos)]
                 if n not in used:
+                    cases.append((p, n, rename(BASE, i, n)))
+        # the call-shape positions (the emitted call depends on the callee's signature): 4 rotating keywords each
+        for k, n in enumerate(kw_legal):
+            for j, (p, i) in enumerate((("function_with_mut_param", "refill"), ("function_called_with_named_args_out_of_order", "span"))):
+                if k % 9 == (2 + 4 * j) % 9 and n not in used:
                     cases.append((p, n, rename(BASE, i, n)))
         tnames = [n for n in TYPE_NAMES if n in legal] + [n.capitalize() for n in kw_legal[:10]]
         for k, n in enumerate(tnames):
